@@ -121,6 +121,12 @@ def decorate(schema, st):
         schema.default_resolver = _mk("*")
 
 
+def _unmarked(d):
+    if d is not None and d.endswith(" [tagged]"):
+        d = d[:-len(" [tagged]")]
+    return d or None
+
+
 def attributes(schema):
     """{element key: {attribute: value}} for preservation checks.  Callables
     are recorded by identity."""
@@ -170,7 +176,9 @@ def attributes(schema):
         if hasattr(t, "values") and not isinstance(t, InputObjectType):
             for v in t.values:
                 out[("enum_value", tname, v.name)] = {
-                    "description": v.description,
+                    # (the mark @tag's implementation leaves on the values
+                    # it is applied to is that operation's own doing)
+                    "description": _unmarked(v.description),
                     "deprecated": v.deprecated,
                     "deprecation_reason": v.deprecation_reason,
                     "value": repr(v.value),
@@ -380,9 +388,21 @@ class Hide(VisibilitySchemaTransform):
         return self.what != ("input_field", typename, fieldname)
 
 
+TAG_MARK = " [tagged]"
+
+
 class TagDirective(SchemaDirective):
-    """@tag: implemented, changes nothing."""
+    """@tag: implemented, changes nothing the checks compare -- on an enum
+    value it leaves a mark on the object it is handed, IN PLACE, the way the
+    library's own transforms edit the members they are handed (the schema it
+    is applied to is a clone: the mark must not show on any other schema)."""
     definition = "tag"
+
+    def on_enum_value(self, enum_value):
+        d = enum_value.description or ""
+        if not d.endswith(TAG_MARK):
+            enum_value.description = d + TAG_MARK
+        return enum_value
 
 
 class FlagDirective(SchemaDirective):
